@@ -4,6 +4,7 @@ import FgaVerif.Proofs.WeightsCongr
 import FgaVerif.Proofs.WAssignCycle
 import FgaVerif.Proofs.WGraphDst
 import FgaVerif.Proofs.WAssignPost
+import FgaVerif.Proofs.WAssignSound
 /-! # C05 — a model is accepted iff it is well-founded (specification side)
 
     As for C04, `Spec/Weights.lean` is a specification the real verdict is compared with under every
@@ -53,7 +54,19 @@ import FgaVerif.Proofs.WAssignPost
       named `R#…`) that entry is keyed by something that is not a cycle placeholder
       (`Proofs/WAssignPost.lean`; that the key is a terminal type the relation reaches is not proved).
 
-    Not proved: that the port's verdict equals the specification's in general. -/
+    * `algorithm_accepts_only_well_founded` — the **soundness half for the port, every graph and every start
+      order: whatever the port accepts is well-founded** (`Proofs/WAssignSound.lean`).  If the assignment succeeds,
+      (1) no node lies on a cycle of rewrite/computed edges (`algorithm_accepted_no_rewrite_cycle`), (2) no
+      intersection, exclusion or other non-union operator node lies on **any** cycle of the graph
+      (`algorithm_accepted_no_operator_on_cycle`: a sixth pass over the depth-first computation — such a node is only
+      computed when its edges returned no open cycle reference; then its edges hold no placeholder, so their targets
+      have final weights, and the nodes with weights and no placeholder are closed under the edges of the graph while
+      the operator itself has no weights yet), (3) every intersection has a terminal type present on every one of its
+      edges (`algorithm_accepted_intersections_have_common_type`), (4) every relation reaches a terminal node by a
+      path of the graph (`algorithm_accepted_relations_reach_a_terminal_type`).
+
+    Not proved: that the port's verdict equals the specification's in general (the completeness half: every
+    well-founded graph is accepted by the port). -/
 namespace FgaVerif.Props.C05
 open FgaVerif.Spec.Weights
 
@@ -277,5 +290,182 @@ example : FgaVerif.Model.WAssign.noPHTypesB somewhere = true ∧
     (match FgaVerif.Model.WAssign.assignWeights somewhere [] with
       | .ok st => FgaVerif.Model.WAssign.aget "doc#a" st.nodeW | .error _ => []) = [("user", 2147483647)] := by
   decide +kernel
+
+/-! ### the algorithm (port of `AssignWeights`) accepts only well-founded graphs -/
+section soundness
+open FgaVerif.Model.WGraph FgaVerif.Model.WAssign
+
+/-- 1. **an accepted graph has no cycle of rewrites that needs no tuple**: no node lies on a cycle of rewrite and
+    computed edges (through union/intersection/exclusion operators or a self reference as well: these are rewrite
+    edges); on a graph whose rewrite/computed edges end in nodes of the graph (`rclosedB`, true of every built graph:
+    `built_graph_closed`) no label at all does -/
+theorem algorithm_accepted_no_rewrite_cycle (g : G) (order : List String) (st : AState)
+    (h : assignWeights g order = .ok st) :
+    (∀ n ∈ g.nodes, ¬ RPath g n.uniqueLabel n.uniqueLabel) ∧ (rclosedB g = true → ∀ x, ¬ RPath g x x) :=
+  ⟨accepted_no_rewrite_cycle g order st h,
+    fun hcl => accepted_no_rewrite_cycle_closed g (rclosedB_sound g hcl) order st h⟩
+
+/-- 2. **no intersection or exclusion of an accepted graph lies on a cycle** — of any kind of edges, tuple hops
+    included (`Conn g v v`: a path of at least one edge from `v` back to `v` through relation and operator nodes);
+    the same holds for an operator node with any label other than `union` -/
+theorem algorithm_accepted_no_operator_on_cycle (g : G) (hn : noPHTypesB g = true) (order : List String) (st : AState)
+    (h : assignWeights g order = .ok st) (n : WNode) (hmem : n ∈ g.nodes) (hop : nodeType g n.uniqueLabel = .operator)
+    (hlbl : nodeLabel g n.uniqueLabel = "intersection" ∨ nodeLabel g n.uniqueLabel = "exclusion" ∨
+      nodeLabel g n.uniqueLabel ≠ "union") : ¬ Conn g n.uniqueLabel n.uniqueLabel := by
+  apply accepted_no_operator_on_cycle g (noPHTypesB_sound g hn) order st h n hmem hop
+  rcases hlbl with e | e | e
+  · rw [e]; decide
+  · rw [e]; decide
+  · exact e
+
+/-- the same for every visited node: a node on a cycle is a relation or a union -/
+theorem algorithm_accepted_cycles_through_relations_and_unions_only (g : G) (hn : noPHTypesB g = true)
+    (order : List String) (st : AState) (h : assignWeights g order = .ok st) (v : String) (hv : v ∈ st.visited)
+    (hc : Conn g v v) : nodeType g v ≠ .operator ∨ nodeLabel g v = "union" := by
+  cases hm : isMaxNode g v with
+  | false => exact absurd hc (accepted_no_nonmax_on_cycle g (noPHTypesB_sound g hn) order st h v hv hm)
+  | true =>
+    unfold isMaxNode at hm
+    cases hnt : nodeType g v with
+    | operator =>
+      rw [hnt] at hm
+      have hf : (NodeType.operator != NodeType.operator) = false := by decide
+      rw [hf, Bool.false_or] at hm
+      exact Or.inr (by simpa using hm)
+    | specificType => exact Or.inl (by decide)
+    | typeAndRelation => exact Or.inl (by decide)
+    | wildcard => exact Or.inl (by decide)
+
+/-- 3. **every intersection of an accepted graph has a user type common to all its operands**: some terminal type
+    `T`, reachable from the intersection, has a weight on every one of its edges -/
+theorem algorithm_accepted_intersections_have_common_type (g : G) (hn : noPHTypesB g = true) (order : List String)
+    (st : AState) (h : assignWeights g order = .ok st) (n : WNode) (hmem : n ∈ g.nodes)
+    (hop : nodeType g n.uniqueLabel = .operator) (hlbl : nodeLabel g n.uniqueLabel = "intersection") :
+    ∃ T, (∃ j, ReachN g n.uniqueLabel T j) ∧ T.startsWith "R#" = false ∧
+      ∀ i e, (edgesOf g n.uniqueLabel)[i]? = some e → (wget T (aget (n.uniqueLabel, i) st.edgeW)).isSome = true :=
+  accepted_intersection_common_type g (noPHTypesB_sound g hn) order st h n hmem hop hlbl
+
+/-- 4. **every relation of an accepted graph reaches a terminal user type**: a path of the graph leads from it to a
+    terminal node (`T` or `T:*`) of type `T` -/
+theorem algorithm_accepted_relations_reach_a_terminal_type (g : G) (hn : noPHTypesB g = true) (order : List String)
+    (st : AState) (h : assignWeights g order = .ok st) (n : WNode) (hmem : n ∈ g.nodes)
+    (hk : nodeType g n.uniqueLabel = .typeAndRelation) : ∃ T j, ReachN g n.uniqueLabel T j :=
+  accepted_relation_reaches_terminal g (noPHTypesB_sound g hn) order st h n hmem hk
+
+/-- 5. **whatever the (ported) algorithm accepts is well-founded**, for every graph (no terminal type named `R#…`:
+    `noPHTypesB`, evaluated by the driver on every built graph) and every start order.  The conjuncts are the
+    negations of the rejection clauses of the property:
+    * first — "some cycle of rewrites needs no tuple to be traversed (also through union/intersection/exclusion
+      operators or a self reference)": no node of the graph lies on a cycle of rewrite/computed edges;
+    * second — "an intersection or exclusion lies on a cycle": no operator node other than a union lies on any cycle
+      of the graph (`Conn`, tuple hops included);
+    * third — "an intersection has no user type common to all operands": every intersection has a terminal type,
+      reachable from it, that has a weight on every one of its edges;
+    * fourth — "a relation can reach no terminal user type at all": every relation has a path to a terminal node.
+    Together with `algorithm_rejects_rewrite_cycles` ("a model containing a tuple-free rewrite cycle is never
+    accepted, whatever else the model contains") this is the "accepted ⇒ well-founded" direction for the port; the
+    converse ("every well-founded model is accepted") is proved for the specification only
+    (`accepted_iff_well_founded`). -/
+theorem algorithm_accepts_only_well_founded (g : G) (hn : noPHTypesB g = true) (order : List String) (st : AState)
+    (h : assignWeights g order = .ok st) :
+    (∀ n ∈ g.nodes, ¬ RPath g n.uniqueLabel n.uniqueLabel) ∧
+    (∀ n ∈ g.nodes, nodeType g n.uniqueLabel = .operator → nodeLabel g n.uniqueLabel ≠ "union" →
+      ¬ Conn g n.uniqueLabel n.uniqueLabel) ∧
+    (∀ n ∈ g.nodes, nodeType g n.uniqueLabel = .operator → nodeLabel g n.uniqueLabel = "intersection" →
+      ∃ T, (∃ j, ReachN g n.uniqueLabel T j) ∧ T.startsWith "R#" = false ∧
+        ∀ i e, (edgesOf g n.uniqueLabel)[i]? = some e → (wget T (aget (n.uniqueLabel, i) st.edgeW)).isSome = true) ∧
+    (∀ n ∈ g.nodes, nodeType g n.uniqueLabel = .typeAndRelation → ∃ T j, ReachN g n.uniqueLabel T j) :=
+  accepts_only_well_founded g (noPHTypesB_sound g hn) order st h
+
+/-! non-vacuity.  An accepted graph with an intersection, an exclusion and a tuple cycle (through relations only):
+    `define v: a and c`, `define w: a but not b`, `define a: [user, bot]`, `define b: [user, doc#a]`,
+    `define c: [doc#b, doc#c]` -/
+def soundDemo : G := {
+  nodes := [⟨"doc#v", "doc#v", .typeAndRelation⟩, ⟨"intersection:0", "intersection", .operator⟩,
+            ⟨"doc#w", "doc#w", .typeAndRelation⟩, ⟨"exclusion:1", "exclusion", .operator⟩,
+            ⟨"doc#a", "doc#a", .typeAndRelation⟩, ⟨"doc#b", "doc#b", .typeAndRelation⟩,
+            ⟨"doc#c", "doc#c", .typeAndRelation⟩,
+            ⟨"user", "user", .specificType⟩, ⟨"bot", "bot", .specificType⟩],
+  edges := [("doc#v", [⟨"doc#v", "intersection:0", .rewrite, "", ["none"]⟩]),
+            ("intersection:0", [⟨"intersection:0", "doc#a", .rewrite, "", ["none"]⟩, ⟨"intersection:0", "doc#c", .rewrite, "", ["none"]⟩]),
+            ("doc#w", [⟨"doc#w", "exclusion:1", .rewrite, "", ["none"]⟩]),
+            ("exclusion:1", [⟨"exclusion:1", "doc#a", .rewrite, "", ["none"]⟩, ⟨"exclusion:1", "doc#b", .rewrite, "", ["none"]⟩]),
+            ("doc#a", [⟨"doc#a", "user", .direct, "", ["none"]⟩, ⟨"doc#a", "bot", .direct, "", ["none"]⟩]),
+            ("doc#b", [⟨"doc#b", "user", .direct, "", ["none"]⟩, ⟨"doc#b", "doc#a", .direct, "", ["none"]⟩]),
+            ("doc#c", [⟨"doc#c", "doc#b", .direct, "", ["none"]⟩, ⟨"doc#c", "doc#c", .direct, "", ["none"]⟩])] }
+
+/-- all start orders over a list of nodes -/
+def allOrders : List String → List (List String)
+  | [] => [[]]
+  | x :: xs => (allOrders xs).flatMap (fun p => (List.range (p.length + 1)).map (fun i => p.take i ++ [x] ++ p.drop i))
+
+def verdict (g : G) (o : List String) : Option AErr :=
+  match assignWeights g o with | .ok _ => none | .error e => some e
+
+/-- the hypotheses of the bundle hold on `soundDemo` (for two start orders), and the common types of its intersection
+    are `bot` and `user` -/
+example : noPHTypesB soundDemo = true ∧ rclosedB soundDemo = true ∧ verdict soundDemo [] = none ∧
+    verdict soundDemo ["doc#c", "doc#w"] = none ∧
+    (match assignWeights soundDemo [] with
+      | .ok st => edgeMaps soundDemo "intersection:0" st | .error _ => []) =
+      [[("bot", 1), ("user", 1)], [("bot", 2147483647), ("user", 2147483647)]] := by decide +kernel
+
+/-- clause 2 violated, intersection: `define a: b and [doc#a]`, `define b: [user]` — the intersection lies on the
+    tuple cycle `intersection → doc#a → intersection`; every start order ends in the tuple-cycle error (Go:
+    "operands AND or BUT NOT cannot be involved in a cycle") -/
+def interCycle : G := {
+  nodes := [⟨"doc#a", "doc#a", .typeAndRelation⟩, ⟨"intersection:0", "intersection", .operator⟩,
+            ⟨"doc#b", "doc#b", .typeAndRelation⟩, ⟨"user", "user", .specificType⟩],
+  edges := [("doc#a", [⟨"doc#a", "intersection:0", .rewrite, "", ["none"]⟩]),
+            ("intersection:0", [⟨"intersection:0", "doc#b", .rewrite, "", ["none"]⟩, ⟨"intersection:0", "doc#a", .direct, "", ["none"]⟩]),
+            ("doc#b", [⟨"doc#b", "user", .direct, "", ["none"]⟩])] }
+example : Conn interCycle "intersection:0" "intersection:0" :=
+  Conn.step ⟨"intersection:0", "doc#a", .direct, "", ["none"]⟩
+    (List.mem_of_getElem? (l := edgesOf interCycle "intersection:0") (i := 1) (by decide)) (by decide)
+    (Conn.edge ⟨"doc#a", "intersection:0", .rewrite, "", ["none"]⟩
+      (List.mem_of_getElem? (l := edgesOf interCycle "doc#a") (i := 0) (by decide)) (by decide))
+example : noPHTypesB interCycle = true ∧ hasRewriteOnlyCycle interCycle = false ∧
+    (allOrders ["doc#a", "intersection:0", "doc#b"]).all (fun o => verdict interCycle o == some .tupleCycle) = true := by
+  decide +kernel
+
+/-- clause 2 violated, exclusion: `define a: [user] but not b`, `define b: [doc#a]` — the exclusion lies on the cycle
+    `exclusion → doc#b → doc#a → exclusion` (one tuple hop) -/
+def exclCycle : G := {
+  nodes := [⟨"doc#a", "doc#a", .typeAndRelation⟩, ⟨"exclusion:0", "exclusion", .operator⟩,
+            ⟨"doc#b", "doc#b", .typeAndRelation⟩, ⟨"user", "user", .specificType⟩],
+  edges := [("doc#a", [⟨"doc#a", "exclusion:0", .rewrite, "", ["none"]⟩]),
+            ("exclusion:0", [⟨"exclusion:0", "user", .direct, "", ["none"]⟩, ⟨"exclusion:0", "doc#b", .rewrite, "", ["none"]⟩]),
+            ("doc#b", [⟨"doc#b", "doc#a", .direct, "", ["none"]⟩])] }
+example : Conn exclCycle "exclusion:0" "exclusion:0" :=
+  Conn.step ⟨"exclusion:0", "doc#b", .rewrite, "", ["none"]⟩
+    (List.mem_of_getElem? (l := edgesOf exclCycle "exclusion:0") (i := 1) (by decide)) (by decide)
+    (Conn.step ⟨"doc#b", "doc#a", .direct, "", ["none"]⟩
+      (List.mem_of_getElem? (l := edgesOf exclCycle "doc#b") (i := 0) (by decide)) (by decide)
+      (Conn.edge ⟨"doc#a", "exclusion:0", .rewrite, "", ["none"]⟩
+        (List.mem_of_getElem? (l := edgesOf exclCycle "doc#a") (i := 0) (by decide)) (by decide)))
+example : noPHTypesB exclCycle = true ∧ hasRewriteOnlyCycle exclCycle = false ∧
+    (allOrders ["doc#a", "exclusion:0", "doc#b"]).all (fun o => verdict exclCycle o == some .tupleCycle) = true := by
+  decide +kernel
+
+/-- clause 3 violated: `define v: a and b`, `define a: [user]`, `define b: [bot]` — no common type; every start order
+    ends in the invalid-model error (Go: "not all paths return the same type for the node") -/
+def interNoCommon : G := {
+  nodes := [⟨"doc#v", "doc#v", .typeAndRelation⟩, ⟨"intersection:0", "intersection", .operator⟩,
+            ⟨"doc#a", "doc#a", .typeAndRelation⟩, ⟨"doc#b", "doc#b", .typeAndRelation⟩,
+            ⟨"user", "user", .specificType⟩, ⟨"bot", "bot", .specificType⟩],
+  edges := [("doc#v", [⟨"doc#v", "intersection:0", .rewrite, "", ["none"]⟩]),
+            ("intersection:0", [⟨"intersection:0", "doc#a", .rewrite, "", ["none"]⟩, ⟨"intersection:0", "doc#b", .rewrite, "", ["none"]⟩]),
+            ("doc#a", [⟨"doc#a", "user", .direct, "", ["none"]⟩]),
+            ("doc#b", [⟨"doc#b", "bot", .direct, "", ["none"]⟩])] }
+example : noPHTypesB interNoCommon = true ∧
+    (allOrders ["doc#v", "intersection:0", "doc#a", "doc#b"]).all
+      (fun o => verdict interNoCommon o == some .invalidModel) = true := by decide +kernel
+
+/-- clauses 1 and 4 violated: `cycG` (rewrite cycle: model-cycle error) and `nowhere` (a relation that reaches no
+    terminal type: invalid-model error), for every start order -/
+example : (allOrders ["doc#a", "doc#b", "union:0"]).all (fun o => verdict cycG o == some .modelCycle) = true ∧
+    verdict nowhere [] = some .invalidModel ∧ verdict nowhere ["doc#a"] = some .invalidModel := by decide +kernel
+
+end soundness
 
 end FgaVerif.Props.C05
